@@ -51,6 +51,7 @@ class Contract:
         self.entropy_clause = None
         self.setup_code = None
         self.ghost_params = {}
+        self.lean_theorem = None
 
     # -- builder API ---------------------------------------------------------------------------
     def params(c, **kw):
@@ -62,8 +63,10 @@ class Contract:
     def requires_(self, expr, name=None):
         self.pre.append(Clause("requires", name or "pre%d" % len(self.pre), expr)); return self
 
-    def ensures_(self, expr, when=None, name=None, tags="", on="return"):
-        cl = Clause("ensures", name or "post%d" % len(self.post), expr, when, tags); cl.on = on; self.post.append(cl); return self
+    def ensures_(self, expr, when=None, name=None, tags="", on="return", export=True):
+        cl = Clause("ensures", name or "post%d" % len(self.post), expr, when, tags); cl.on = on
+        cl.export = export      # export=False: proved for the function, hidden from callers (opaque)
+        self.post.append(cl); return self
 
     def raises_(self, exc, when, name=None, tags=""):
         self.exc.append(Clause("raises", name or "raises-%s%d" % (exc, len(self.exc)), when, None, tags, exc=exc))
@@ -129,6 +132,9 @@ class Contract:
     def ghost(c, **kw):
         c.ghost_params.update(kw); return c
 
+    def lean(c, theorem):
+        c.lean_theorem = theorem; return c
+
     def setup(self, code):
         self.setup_code = code; return self
 
@@ -147,6 +153,7 @@ class Registry:
         self.props = {}           # property id -> PropertySpec
         self.ghosts = {}          # qual -> (module name, python source of a ghost program)
         self.aliases = {}         # (class qual, ghost attribute) -> real attribute
+        self.ghost_attrs = {}     # ghost attribute name -> (class qual prefix, function(ip, obj))
         self.impls = {}           # abstract contract qual -> [implementing contract quals]
         self.ilaw_lemmas = {}     # (implementation name, ILAW name) -> ghost lemma qual
 
